@@ -69,6 +69,10 @@ def configure(cfg, r, tier):
     # frozen inputs are inputs too
     for k in ("H", "DH", "SC"):
         cfg["ops"][k]["freeze"] = 0.2
+    # set-valued attributes (union merge of duplicate edges) are inputs too
+    cfg["ops"]["H"]["dup_edge"] = 4.0
+    cfg["ops"]["H"]["merge_duplicate_edges"] = 3.0
+    cfg["p_io_observer"] = r.choice([0.1, 0.25])
 
 
 _CACHE = {}
@@ -117,6 +121,8 @@ def next_record(sim):
             fn = "view:" + g.r.choice(VIEW_CALLS)
         else:
             fn = g.r.choice(fns)
+            if g.r.random() < sim.cfg.get("p_io_observer", 0.0):
+                fn = g.r.choice([f for f in fns if f.startswith(("write_", "to_"))])
             if fn in SLOW and g.r.random() > sim.cfg["p_slow"] * 6:
                 fn = g.r.choice([f for f in fns if f not in SLOW])
             fn = "xgi:" + fn
